@@ -29,6 +29,7 @@ type fileCase struct {
 	expect []interface{} // what each document must read back as
 	file   []byte        // intended file content
 	ends   []int         // b_i: end offset of document i in file
+	empty  []bool        // document i is the empty object {} (skipped by the readers: known finding)
 	name   string
 }
 
@@ -120,7 +121,7 @@ func genFileCase(c *Ctx) (*fileCase, *Violation) {
 		var err error
 		var doc string
 		if fc.json {
-			doc = genJSONDoc(t, JSONOpts{WS: t.Draw(3) == 2})
+			doc = genJSONDoc(t, JSONOpts{WS: t.Draw(3) == 2, EmptyTop: true})
 			if v := safely(c, "gen-decode", func() { m, err = mxj.NewMapJson([]byte(doc)) }); v != nil {
 				return nil, nil
 			}
@@ -130,7 +131,7 @@ func genFileCase(c *Ctx) (*fileCase, *Violation) {
 				return nil, nil
 			}
 		}
-		if err != nil || len(m) == 0 {
+		if err != nil || (len(m) == 0 && !fc.json) {
 			c.C["probe.gen_rejected"]++
 			continue
 		}
@@ -162,6 +163,7 @@ func genFileCase(c *Ctx) (*fileCase, *Violation) {
 		fc.maps = append(fc.maps, m)
 		fc.enc = append(fc.enc, enc)
 		fc.expect = append(fc.expect, exp)
+		fc.empty = append(fc.empty, len(m) == 0)
 	}
 	if len(fc.maps) == 0 {
 		return nil, nil
@@ -183,23 +185,45 @@ func genFileCase(c *Ctx) (*fileCase, *Violation) {
 }
 
 // checkPrefix verifies that got[0:k] equal the expected documents.
-func (fc *fileCase) checkPrefix(c *Ctx, clause string, got []interface{}, raws [][]byte, k int) *Violation {
-	if len(got) < k {
-		return &Violation{clause + "-lost/" + fc.tag(), fmt.Sprintf("%d Maps returned, but %d documents are intact in the file", len(got), k)}
-	}
+// live returns the indexes, among the first k documents, of those the readers
+// return: all of them, minus empty objects while that known finding is open.
+func (fc *fileCase) live(c *Ctx, k int) []int {
+	var l []int
+	skipped := false
 	for i := 0; i < k; i++ {
-		if Canon(asIface(got[i])) != Canon(fc.expect[i]) {
-			return &Violation{clause + "-map/" + fc.tag(), fmt.Sprintf("Map %d read back differs:\n read:     %s\n expected: %s", i+1, clip(Canon(got[i]), 400), clip(Canon(fc.expect[i]), 400))}
+		if fc.empty[i] {
+			skipped = true
+			continue
+		}
+		l = append(l, i)
+	}
+	if skipped && !c.KnownHit("C19-empty-object-skipped", "a {} document in the file") {
+		l = l[:0]
+		for i := 0; i < k; i++ {
+			l = append(l, i)
+		}
+	}
+	return l
+}
+
+func (fc *fileCase) checkPrefix(c *Ctx, clause string, got []interface{}, raws [][]byte, k int) *Violation {
+	lv := fc.live(c, k)
+	if len(got) < len(lv) {
+		return &Violation{clause + "-lost/" + fc.tag(), fmt.Sprintf("%d Maps returned, but %d documents are intact in the file", len(got), len(lv))}
+	}
+	for j, i := range lv {
+		if Canon(asIface(got[j])) != Canon(fc.expect[i]) {
+			return &Violation{clause + "-map/" + fc.tag(), fmt.Sprintf("Map %d read back differs:\n read:     %s\n expected: %s", j+1, clip(Canon(got[j]), 400), clip(Canon(fc.expect[i]), 400))}
 		}
 		if fc.raw {
-			if i >= len(raws) {
+			if j >= len(raws) {
 				return &Violation{clause + "-raw/" + fc.tag(), "raw value missing"}
 			}
-			if !bytes.Contains(raws[i], fc.enc[i]) {
-				if fc.json && bytes.Equal(raws[i], compactJSON(fc.enc[i])) && c.KnownHit("C19-json-raw-compacted", fmt.Sprintf("raw %q for document %q", clip(string(raws[i]), 60), clip(string(fc.enc[i]), 60))) {
+			if !bytes.Contains(raws[j], fc.enc[i]) {
+				if fc.json && bytes.Equal(raws[j], compactJSON(fc.enc[i])) && c.KnownHit("C19-json-raw-compacted", fmt.Sprintf("raw %q for document %q", clip(string(raws[j]), 60), clip(string(fc.enc[i]), 60))) {
 					continue
 				}
-				return &Violation{clause + "-raw/" + fc.tag(), fmt.Sprintf("raw value %d does not contain the document text:\n raw: %q\n doc: %q", i+1, clip(string(raws[i]), 300), clip(string(fc.enc[i]), 300))}
+				return &Violation{clause + "-raw/" + fc.tag(), fmt.Sprintf("raw value %d does not contain the document text:\n raw: %q\n doc: %q", j+1, clip(string(raws[j]), 300), clip(string(fc.enc[i]), 300))}
 			}
 		}
 	}
@@ -269,7 +293,7 @@ func runC19(c *Ctx) *Violation {
 	if rerr != nil {
 		return &Violation{"C19.f1-read-error/" + fc.tag(), fmt.Sprintf("reading back an intact file returned %v (%d Maps)", rerr, len(got))}
 	}
-	if len(got) != len(fc.maps) {
+	if want := len(fc.live(c, len(fc.maps))); len(got) != want {
 		return &Violation{"C19.f1-count/" + fc.tag(), fmt.Sprintf("%d Maps written, %d read back", len(fc.maps), len(got))}
 	}
 	if v := fc.checkPrefix(c, "C19.f1", got, raws, len(fc.maps)); v != nil {
@@ -326,7 +350,7 @@ func runC19(c *Ctx) *Violation {
 			c.C["probe.f2_checked"]++
 			c.Distinct("nontrivial", HashStr(string(fc.file)).Int(tear).Int(1))
 			var vv *Violation
-			if len(got) != k {
+			if len(got) != len(fc.live(c, k)) {
 				vv = &Violation{"C19.f2-count/" + fc.tag(), fmt.Sprintf("file torn at byte %d of %d: %d documents are intact but %d Maps were returned (err=%v)", tear, L, k, len(got), rerr)}
 			} else if vv = fc.checkPrefix(c, "C19.f2", got, raws, k); vv == nil {
 				if inDoc && rerr == nil {
@@ -386,7 +410,7 @@ func runC19(c *Ctx) *Violation {
 			}
 		}
 		k := intact(fc.ends, off)
-		if len(got) > k {
+		if len(got) > len(fc.live(c, k)) {
 			// documents past the error cannot have been read
 			return &Violation{"C19.f3-eio-extra/" + fc.tag(), fmt.Sprintf("read error at offset %d: %d Maps returned but only %d documents precede the error", off, len(got), k)}
 		}
@@ -518,7 +542,7 @@ func init() {
 		Assumptions: []string{
 			"the simulated disk replaces os.Open/os.Create/os.Stat in an instrumented scratch copy; os.File semantics beyond Read/Write/Close are not modelled",
 			"a crash during WriteString leaves exactly a prefix of the intended content durable (no reordering inside a single write)",
-			"top-level Maps are non-empty (an empty object is skipped by the readers by design)",
+			"XML documents never decode to an empty Map; JSON lists may contain the empty object {}, which the readers skip - recorded as known finding C19-empty-object-skipped",
 			"JSON Raw values are compared modulo the recorded known finding C19-json-raw-compacted",
 		},
 		Components: map[string][]string{
